@@ -61,6 +61,20 @@ CHECKS = {
             "must be refused with the document unchanged.",
             TRUST + "Matched positions are decided by the C01 reference "
             "evaluator.", "6/C04"),
+    "C05": (True, "exploration",
+            "enumeration of document pairs x all 180 policy combinations "
+            "(strided) against a reference merge model in validity form; "
+            "exception-type oracle for impossible merges",
+            "Ordered pairs from ~950 small documents plus a hand-shaped "
+            "family (AoH with identity keys, sets, hashes of lists, type "
+            "clashes) are merged under every hash x array x aoh x set policy "
+            "combination (family x family under 12 rotating policies, all "
+            "pairs by stride under all 180) and per-path rules/identity "
+            "keys; the result must satisfy the policy-defined clauses (key "
+            "union, per-key recursion, order preservation, append/unique "
+            "rules) or be a MergeException where the merge is structurally "
+            "impossible; no other exception type may escape.",
+            TRUST, "6/C05"),
     "C08": (True, "exploration",
             "exhaustive small-scope enumeration of segment ASTs + Hypothesis "
             "generation with an independent writer; round-trip oracle "
